@@ -108,60 +108,6 @@ Proof.
   - intros H. destruct WF as (W & V). exists ErrCustomMsg. unfold into_response. rewrite collect_err; auto.
 Qed.
 
-(* ---- Remote ---- *)
-Lemma remote_description :
-  remote_plain = true /\ remote_wire_fields = ["addr"] /\ remote_schema_name = "Remote".
-Proof. vm_compute. repeat split; reflexivity. Qed.
-
-Theorem encode_remote_format t owned a : encode_remote t owned a = Some (JObj [("addr", JStr a)]).
-Proof. unfold encode_remote. destruct remote_description as (-> & -> & _). reflexivity. Qed.
-
-Theorem decode_encode_remote t t' owned a j : encode_remote t owned a = Some j -> decode_remote t' j = Some a.
-Proof.
-  rewrite encode_remote_format. intros H. injection H as <-. unfold decode_remote.
-  destruct remote_description as (-> & -> & _). vm_compute. reflexivity.
-Qed.
-
-(* ---- builders ---- *)
-Definition last_label (steps : list ib_step) (init : option string) : option string :=
-  fold_left (fun acc s => match s with IBLabel l => Some l | _ => acc end) steps init.
-Definition last_admin (steps : list ib_step) (init : option string) : option string :=
-  fold_left (fun acc s => match s with IBAdmin a => Some a | _ => acc end) steps init.
-Definition last_funds (steps : list ib_step) (init : json) : json :=
-  fold_left (fun acc s => match s with IBFunds f => f | _ => acc end) steps init.
-
-Theorem ib_steps_spec steps b :
-  fold_left ib_apply steps b =
-  {| ib_msg := ib_msg b; ib_code_id := ib_code_id b; ib_admin := last_admin steps (ib_admin b);
-     ib_label := last_label steps (ib_label b); ib_funds := last_funds steps (ib_funds b) |}.
-Proof.
-  revert b. induction steps as [|s r IH]; intros b; simpl; [destruct b; reflexivity|].
-  rewrite IH. destruct s; reflexivity.
-Qed.
-
-Theorem ib_build_spec msg code steps salt :
-  ib_build (fold_left ib_apply steps (ib_new msg code)) salt =
-  let common := [("admin", opt_str_json (last_admin steps None)); ("code_id", code); ("msg", msg);
-                 ("funds", last_funds steps (JArr [])); ("label", JStr (match last_label steps None with Some l => l | None => "" end))] in
-  match salt with
-  | None => JObj [("instantiate", JObj common)]
-  | Some s => JObj [("instantiate2", JObj (common ++ [("salt", s)]))]
-  end.
-Proof. rewrite ib_steps_spec. reflexivity. Qed.
-
-Definition last_of (fs : list json) (init : json) : json := fold_left (fun _ f => f) fs init.
-
-Theorem eb_build_spec addr fs msg :
-  eb_build (eb_call (fold_left eb_with_funds fs (eb_new addr)) msg) =
-  JObj [("execute", JObj [("contract_addr", JStr addr); ("msg", msg); ("funds", last_of fs (JArr []))])].
-Proof.
-  assert (H : forall b, eb_contract (fold_left eb_with_funds fs b) = eb_contract b /\
-                        eb_funds (fold_left eb_with_funds fs b) = last_of fs (eb_funds b)).
-  { induction fs as [|f r IH]; intros b; [split; reflexivity|]. simpl fold_left.
-    destruct (IH (eb_with_funds b f)) as [A B]. split; [rewrite A; reflexivity|]. rewrite B. reflexivity. }
-  destruct (H (eb_new addr)) as [A B]. unfold eb_build, eb_call. simpl. rewrite A, B. reflexivity.
-Qed.
-
 (* ------------------------------------------------------------------------------------------ *)
 (* Cargo features: under EVERY choice of sylvia features the arm of a message kind exists exactly when cosmwasm-std
    defines the kind - so the match compiles (no arm names a missing variant) and no existing non-custom kind falls
